@@ -437,6 +437,7 @@ def _witness(spec, case):
 def _run_chunk(chunk, prop, timeout):
     """chunk items: (spec, None, modes) = exhaustive, (spec, (seed, count), modes) = sampled."""
     res = Result(prop)
+    best: dict = {}  # (func, clause) -> [(size key, Violation)]: only the smallest witnesses travel back
     old = signal.signal(signal.SIGALRM, _alarm)
     try:
         for spec, sample, modes in chunk:
@@ -457,7 +458,7 @@ def _run_chunk(chunk, prop, timeout):
                         continue
                     res.add_case(_case_repr(spec, case), nontrivial=nontrivial)
                     for clause, func, text in diffs:
-                        res.violations.append(Violation(prop, clause, func, _witness(spec, case), clip(text)))
+                        _keep_smallest(best, Violation(prop, clause, func, _witness(spec, case), clip(text)), (len(spec), sum(c not in "T-" for c in case[2]), case[2]))
             except _Timeout:
                 if case is not None:
                     res.violations.append(Violation(prop, CL_TERM, FUNC[case[0]], _witness(spec, case), f"no result within {timeout}s for the cases of this tree (last case started: {case})"))
@@ -465,7 +466,19 @@ def _run_chunk(chunk, prop, timeout):
                 signal.setitimer(signal.ITIMER_REAL, 0)
     finally:
         signal.signal(signal.SIGALRM, old)
+    for lst in best.values():
+        res.violations += [v for _k, v in lst]
     return res
+
+
+def _keep_smallest(best, v, size, per_key=4):
+    lst = best.setdefault(v.key(), [])
+    if len(lst) < per_key:
+        lst.append((size, v))
+        lst.sort(key=lambda t: t[0])
+    elif size < lst[-1][0]:
+        lst[-1] = (size, v)
+        lst.sort(key=lambda t: t[0])
 
 
 # ------------------------------------------------------------------ inputs
@@ -487,7 +500,7 @@ def run(prop: str, tier: str, only=None) -> Result:
     base = seed() * 1_000_003 + 808
     n_ex = 3 if quick else 4
     items = [(s, None, MODES) for s in specs_upto(n_ex)]
-    items += [(s, None, MODES) for s in gen.eqpair_specs(3 if quick else 4)]
+    items += [(s, None, MODES) for s in gen.eqpair_specs(3)]
     items += [(s, None, MODES) for s in gen.explicit_id_specs(2 if quick else 3)]
     # control classes returned: smaller bound, own clauses
     n_cls = 2 if quick else 3
@@ -501,6 +514,9 @@ def run(prop: str, tier: str, only=None) -> Result:
             sampled.append((s, (base + k, 40), MODES))
         n_big, per_big, lo, hi = 60, 30, 5, 6
     else:
+        for s in gen.eqpair_specs(4, min_n=4):
+            k += 1
+            sampled.append((s, (base + k, 150), MODES))
         n_big, per_big, lo, hi = 1500, 120, 5, 6
     for j in range(n_big):
         rng = random.Random(base + 100_000 + j)
@@ -514,10 +530,10 @@ def run(prop: str, tier: str, only=None) -> Result:
     r2.exhaustive = False
     total.merge(r2)
     total.bounds["Node.filter / Node._add_filtered (tree.filter, tree.filtered, tree.copy(predicate=), node.filter, node.filtered, node.copy(add_self=True|False, predicate=))"] = (
-        f"exhaustive: every ordered forest with <= {n_ex} nodes x (distinct labels + all labelings over {{a,b}}), equal-data pairs (ids 1,2) <= {3 if quick else 4} nodes, explicit data_id <= {2 if quick else 3} nodes "
+        f"exhaustive: every ordered forest with <= {n_ex} nodes x (distinct labels + all labelings over {{a,b}}), equal-data pairs (ids 1,2) <= 3 nodes, explicit data_id <= {2 if quick else 3} nodes "
         f"x ALL 6^n assignments of {{T,F,SkipBranch,SkipBranch(and_self=False),SelectBranch,StopTraversal}} (branch level: all assignments over the branch) "
         f"x delivery {{returned instance, raised instance, raised class / StopIteration}}; control classes returned: forests <= {n_cls} nodes; "
-        + (f"sampled: every 4-node spec x 40 seeded assignments, {n_big} random trees with 5..6 nodes x {per_big} assignments" if quick else f"sampled: {n_big} random trees with 5..6 nodes x {per_big} seeded assignments")
+        + (f"sampled: every 4-node spec x 40 seeded assignments, {n_big} random trees with 5..6 nodes x {per_big} assignments" if quick else f"sampled: every 4-node equal-data-pair spec x 150 seeded assignments, {n_big} random trees with 5..6 nodes x {per_big} seeded assignments")
         + f" (VERIF_SEED={seed()})"
     )
     return total
